@@ -130,8 +130,9 @@ func eqSlices(a, b any, path string) error {
 		return fmt.Errorf("%s: %T vs %T", path, a, b)
 	}
 	if !oka {
-		if ca, ok := a.(stackage.Condition); ok {
-			cb, ok2 := b.(stackage.Condition)
+		if ca, ok := stackage.ConvertCondition(a); ok {
+			// (a Condition passed through as-is keeps its alias wrapping; compare the underlying values)
+			cb, ok2 := stackage.ConvertCondition(b)
 			if !ok2 {
 				return fmt.Errorf("%s: Condition vs %T", path, b)
 			}
